@@ -49,6 +49,11 @@ def lapse_sq(rel):
     return rel['alpha'] * rel['alpha']
 
 
+def ends_diff(arr):
+    """custom (dict-form) estimation function: difference of the two corner cells - linear in the cells"""
+    return arr[-1, -1, -1] - arr[0, 0, 0]
+
+
 CUSTOM = {'double_gxx': double_gxx, 'lapse_sq': lapse_sq}
 REQUESTS = [
     dict(vars=['gammadet'], estimates=['max']),
@@ -71,6 +76,12 @@ def configs(tier):
             out.append(dict(n=n, req=ri, split=False, tkey='it'))
     if tier == 'quick':
         out.append(dict(n=3, req=1, split=False, tkey='it'))      # all 6 orderings of three steps, no estimator forks
+    # real-valued times (non-integer, possibly within the same unit interval), linear request: all orderings
+    out.append(dict(n=2, req=1, split=False, tkey='t'))
+    out.append(dict(n=3, req=1, split=False, tkey='t'))
+    # three successive calls with a custom (dict-form) estimate: [estimate only] ; [new variable, no estimate] ; [same variable,
+    # estimate again] must give the table of the single call [variable, estimate]
+    out.append(dict(n=2, req=0, split='hist3', tkey='it'))
     # splitting the requests over two successive calls gives the same table
     for n in (2,) if tier == 'quick' else (2, 3):
         out.append(dict(n=n, req=0, split=True, tkey='it'))
@@ -178,14 +189,16 @@ def run_config(args):
     req = requests_for(tier)[cfg['req']]
     n, tkey = cfg['n'], cfg['tkey']
     name = (f"n={n} {tkey} vars={[v if isinstance(v, str) else list(v)[0] for v in req['vars']]} "
-            f"estimates={req['estimates']}" + (' split over two calls' if cfg['split'] else ''))
+            f"estimates={req['estimates']}" + (' estimate / variable / estimate over three calls (custom estimate)' if cfg['split'] == 'hist3'
+                                               else ' split over two calls' if cfg['split'] else ''))
     res = dict(name=name, idx=idx, paths=0, queries=0, bad=[], inconclusive=None)
     t0 = time.time()
-    ints = [f'k{s}' for s in range(n)]
+    # iteration numbers are symbolic integers; times are symbolic reals (int() of one truncates)
+    ints = [f'k{s}' for s in range(n)] if tkey != 't' else []
 
     def run(c):
         fd = make_fd()
-        keys = [SInt.var(f'k{s}') for s in range(n)]
+        keys = [SInt.var(f'k{s}') for s in range(n)] if tkey != 't' else [sym(f'k{s}') for s in range(n)]
         steps = []
         for s in range(n):
             steps.append({tkey: keys[s], 'gxx': cell(f's{s}gxx'), 'kxx': cell(f's{s}kxx'), 'alpha': cell(f's{s}al')})
@@ -198,7 +211,15 @@ def run_config(args):
             c.pre.append(tm.lt(tm.ZERO, steps[s]['gxx'][1, 0, 0].t))
         data = {k: [st[k] for st in steps] for k in steps[0]}
         with contextlib.redirect_stdout(io.StringIO()):
-            if not cfg['split']:
+            if cfg['split'] == 'hist3':
+                cust = [{'ends_diff': ends_diff}]
+                v_ = list(req['vars'][:1])
+                full = atime.over_time(dict(data), fd, vars=list(v_), estimates=list(cust), verbose=False)
+                a_ = atime.over_time(dict(data), fd, vars=[], estimates=list(cust), verbose=False)
+                b_ = atime.over_time(a_, fd, vars=list(v_), estimates=[], verbose=False)
+                c_ = atime.over_time(b_, fd, vars=list(v_), estimates=list(cust), verbose=False)
+                probs = tables_equal(full, c_)
+            elif not cfg['split']:
                 out = atime.over_time(dict(data), fd, vars=list(req['vars']), estimates=list(req['estimates']), verbose=False)
                 probs = check_table(out, steps, fd, req, tkey)
             else:
@@ -208,6 +229,10 @@ def run_config(args):
                 second = atime.over_time(first, fd, vars=list(req['vars']), estimates=list(req['estimates']), verbose=False)
                 probs += tables_equal(full, second)
         return probs
+    from symx.symint import sym_int
+    had_int = 'int' in vars(atime)
+    old_int = vars(atime).get('int')
+    atime.int = sym_int            # builtin int() collapses symbolic integers (int subclasses are copied to plain ints)
     try:
         with patched(modules=('aurel.core', 'aurel.maths', 'aurel.finitedifference')):
             for c, probs in explore(run, pre=[], backend='inproc', ints=ints, decide_timeout=5, max_paths=20000):
@@ -219,6 +244,11 @@ def run_config(args):
                     res['bad'].append(dict(problems=sorted(set(probs)), model={k: str(x) for k, x in model.items() if x is not None}))
     except Inconclusive as e:
         res['inconclusive'] = str(e)
+    finally:
+        if had_int:
+            atime.int = old_int
+        else:
+            del atime.int
     res['seconds'] = round(time.time() - t0, 2)
     return res
 
@@ -240,7 +270,7 @@ def replay_config(tier, idx, model):
         return float(Fraction(model[nm])) if nm in model else default
     steps = []
     for s in range(n):
-        st = {tkey: int(val(f'k{s}', s))}
+        st = {tkey: (int(val(f'k{s}', s)) if tkey != 't' else float(val(f'k{s}', s)))}
         for nm in ('gxx', 'kxx', 'al'):
             base = rng.uniform(0.5, 1.5, size=(6, 6, 6))
             base[0, 0, 0] = val(f's{s}{nm}_c0', base[0, 0, 0])
@@ -249,6 +279,22 @@ def replay_config(tier, idx, model):
         steps.append(st)
     data = {k: [st[k] for st in steps] for k in steps[0]}
     copies = {k: [np.copy(x) for x in v] for k, v in data.items()}
+    if cfg['split'] == 'hist3':
+        cust = [{'ends_diff': ends_diff}]
+        v_ = list(req['vars'][:1])
+        with contextlib.redirect_stdout(io.StringIO()):
+            full = atime.over_time({k: list(v) for k, v in data.items()}, fd, vars=list(v_), estimates=list(cust), verbose=False)
+            a_ = atime.over_time({k: list(v) for k, v in data.items()}, fd, vars=[], estimates=list(cust), verbose=False)
+            b_ = atime.over_time(a_, fd, vars=list(v_), estimates=[], verbose=False)
+            c_ = atime.over_time(b_, fd, vars=list(v_), estimates=list(cust), verbose=False)
+        bad = []
+        if sorted(full.keys()) != sorted(c_.keys()):
+            bad.append(f'column sets differ: {sorted(set(full) ^ set(c_))}')
+        else:
+            for k in full:
+                if not all(np.allclose(x, y) for x, y in zip(full[k], c_[k])):
+                    bad.append(f'column {k} differs')
+        return dict(problems=bad, reproduces=bool(bad))
     with contextlib.redirect_stdout(io.StringIO()):
         out = atime.over_time(dict(data), fd, vars=list(req['vars']), estimates=list(req['estimates']), verbose=False)
     bad = []
